@@ -1,5 +1,6 @@
 import WzVerif.Driver.Proto
 import WzVerif.Model.RoutingWire
+import WzVerif.Model.RoutingSched
 namespace Wz.Driver.C03
 open Wz Wz.Proto Wz.Routing Wz.Routing.Wire
 
@@ -10,6 +11,35 @@ def outPartOn (target : Str) : Part → String
       (match matchDyn pre kind post suffixed target with
        | some (v, sl) => hexStr v ++ "/" ++ outBool sl
        | none => "~")
+
+/-- forced schedule over the generated `Map.update` / `Map.add` programs. `acts`: one action per thread (separated by `!`),
+`A<n>` = `add()` of a factory with `n` rules (the last rules of the map, in thread order), anything else
+a request whose single-threaded outcome `predict` computes. Answer: the events of the grants, then per
+thread `A` | `~` (still inside `update()`) | the predicted outcome when the thread left `update()` with
+both structures sorted | `UNSORTED`; then whether every thread has finished. -/
+def schedCmd (predict : String → String) (nrules : Nat) (acts grants : String) : String :=
+  let as := splitStr acts "!"
+  let kinds : List (Option Nat) := as.map fun a =>
+    if a.startsWith "A" then some ((a.drop 1).toString.toNat?.getD 0) else none
+  let added := (kinds.map (·.getD 0)).foldl (· + ·) 0
+  let gs := (splitStr grants ",").filterMap (·.toNat?)
+  let (evs, res, fin) := Wz.RoutingLock.schedRun (nrules - added) kinds gs
+  let outs := (as.zip res).map fun (a, r) =>
+    if a.startsWith "A" then "A"
+    else match r with
+      | none => "~"
+      | some true => predict a
+      | some false => "UNSORTED"
+  outList id evs ++ " ; " ++ "|".intercalate outs ++ " ; " ++ outBool fin
+
+/-- request action `M<hex path>:<hex method>` -/
+def predictMatch (m : RMap) (a : Adapter) (qa : QueryArgs) (ws : Option Bool) (act : String) : String :=
+  match (act.drop 1).toString.splitOn ":" with
+  | [p, meth] =>
+    match unhexStr p, unhexStr meth with
+    | some p, some meth => outOutcome (matchAdapter m a p (some meth) qa ws)
+    | _, _ => badArgs
+  | _ => badArgs
 
 /-- shared routing commands (also used by the C04 / C12 drivers) -/
 def routing : Handler
@@ -30,6 +60,12 @@ def routing : Handler
           | _, _ => badArgs
         | _ => badArgs
       some ("|".intercalate outs)
+    | some none, _, _, _ => some "UNSUPPORTED"
+    | _, _, _, _ => some badArgs
+  | "route.sched", [m, a, qa, ws, acts, grants] =>
+    match mapArg m, adapterArg a, qaArg qa, optArg boolArg ws with
+    | some (some m), some a, some qa, some ws =>
+      some (schedCmd (predictMatch m a qa ws) m.rules.length acts grants)
     | some none, _, _, _ => some "UNSUPPORTED"
     | _, _, _, _ => some badArgs
   | "route.kernel", [m, target] =>
